@@ -457,7 +457,7 @@ def expect_virtual_write(nm, data, v, byname, physmap, order):
 def run_winf(chk, tier, model_exe, stats, budget="run"):
     r = common.rng("C03-winf-" + tier + budget)
     n = 60 if tier == "quick" else 600
-    n_cpp = 3 if tier == "quick" else 16
+    n_cpp = 2 if tier == "quick" else 16
     mods = []
     # the example of the source comment first
     corpus = ['[$default byte_order: "LittleEndian"]\n[(cpp) namespace: "vw9000"]\nstruct Top:\n'
